@@ -296,10 +296,39 @@ pub fn search(tag: &str, tier: &str) -> Option<Value> {
         }
     }
     if other.is_some() { return other; }
+    for key in ["nest_limit", "size_limit", "dfa_size_limit"] {
+        for n in [0u64, 1, 250, u32::MAX as u64 - 1, u32::MAX as u64, u32::MAX as u64 + 1, (u32::MAX as u64 + 1) * 3 + 7, u64::MAX - 1, u64::MAX] {
+            let o = run_numflag(key, n);
+            if o.fails { return Some(witness("c11_numflag", json!({"key": key, "n": n}), &o)); }
+        }
+    }
     let n = if tier == "thorough" { 120000 } else { 20000 };   // (twenty thousand generated specifications take about ten seconds)
     for seed in 1..=n {
         let o = run_gen(seed);
         if o.fails { return Some(witness("c11_gen", json!({"seed": seed}), &o)); }
     }
     None
+}
+
+
+/// A numeric flag of the %grmtools section is in force with the value written, or the section is refused: never another
+/// number.
+pub fn run_numflag(key: &str, n: u64) -> Outcome {
+    use cfgrammar::header::GrmtoolsSectionParser;
+    use lrlex::LexFlags;
+    let expected = format!("{} in force as {}, or an error", key, n);
+    let src = format!("%grmtools{{{}: {}}}\n%%\n", key, n);
+    let r = std::panic::catch_unwind(|| {
+        let (mut header, _) = GrmtoolsSectionParser::new(&src, false).parse().ok()?;
+        Some(LexFlags::try_from(&mut header).map(|f| (f.nest_limit.map(|x| x as u64), f.size_limit.map(|x| x as u64), f.dfa_size_limit.map(|x| x as u64))).map_err(|_| ()))
+    });
+    match r {
+        Err(_) => Outcome { fails: true, observed: "panic".into(), expected },
+        Ok(None) => Outcome { fails: false, observed: "section refused by the header parser".into(), expected },
+        Ok(Some(Err(()))) => Outcome { fails: false, observed: "refused".into(), expected },
+        Ok(Some(Ok((nl, sl, dl)))) => {
+            let got = match key { "nest_limit" => nl, "size_limit" => sl, _ => dl };
+            Outcome { fails: got != Some(n), observed: format!("{} in force as {:?}", key, got), expected }
+        }
+    }
 }
